@@ -2,8 +2,8 @@
 import ast
 
 from ..core import RuleResult, need
-from ..cfg import cfg_of
-from ..flow import flow_of, path_base
+from ..cfg import cfg_of, desugar_bool_returns
+from ..flow import flow_of, path_base, denotes
 from ..astutil import (src, call_attr, call_name, compare_parts, names_in, is_name, path_of, returns_of)
 
 THM = 'kernel/thm.py'
@@ -48,7 +48,24 @@ def rule_p1(repo):
                 roots = flow.resolve(c.args[0])
                 if any(r.startswith(seq + '.prevs') for r in roots):
                     reads.append((n, c))
-    need(reads, '_check_proof_item: no read of a cited item (prf.find_item(prev)) found')
+    # the read may sit in a nested helper that is called with the cited identifier: it is judged in the helper (identifier
+    # test) and at the helper's call sites (position guard)
+    helper_reads = []
+    for g in func.nested.values():
+        gps = g.params()
+        gcfg, gflow = cfg_of(g.node), flow_of(g.node)
+        for n in gcfg.nodes:
+            for c in _calls_in_node(gcfg, n):
+                if call_attr(c) == 'find_item' and path_of(c.func.value) == prf and c.args and any(path_base(r) in gps for r in gflow.resolve(c.args[0])):
+                    pidx = [gps.index(path_base(r)) for r in gflow.resolve(c.args[0]) if path_base(r) in gps][0]
+                    sites = []
+                    for m in cfg.nodes:
+                        for c2 in _calls_in_node(cfg, m):
+                            if is_name(c2.func, g.name) and len(c2.args) > pidx and any(r.startswith(seq + '.prevs') for r in flow.resolve(c2.args[pidx])):
+                                sites.append(m)
+                    if sites:
+                        helper_reads.append((g, gcfg, gflow, gps[pidx], n, c, sites))
+    need(reads or helper_reads, '_check_proof_item: no read of a cited item (prf.find_item(prev)) found')
 
     def dep_pred(expr, pol):
         return pol and isinstance(expr, ast.Call) and call_attr(expr) == 'can_depend_on' and \
@@ -71,6 +88,19 @@ def rule_p1(repo):
         return False
     dep_edges = cfg.establishing_edges(dep_pred)
     pos_edges = cfg.establishing_edges(pos_pred)
+    for g, gcfg, gflow, gp, n, c, sites in helper_reads:
+        def gdep(expr, pol, gflow=gflow, gp=gp):
+            return pol and isinstance(expr, ast.Call) and call_attr(expr) == 'can_depend_on' and path_of(expr.func.value) == seq + '.id' and \
+                expr.args and any(path_base(r) == gp for r in gflow.resolve(expr.args[0]))
+        ok1 = gcfg.path_avoiding(n, skip_edges=gcfg.establishing_edges(gdep)) is None
+        res.add('%s :: Theory._check_proof_item :: cited-read :: identifier-test' % THEORY, ok1,
+                '%s.id.can_depend_on(prev) holds on every path to the read (in the helper %s)' % (seq, g.name) if ok1 else
+                '%s reachable without %s.id.can_depend_on(prev)' % (src(c), seq), '%s:%d' % (THEORY, n.lineno))
+        ok2 = all(cfg.path_avoiding(m, skip_edges=pos_edges) is None for m in sites)
+        res.add('%s :: Theory._check_proof_item :: cited-read :: position-guard' % THEORY, ok2,
+                'the citing step is the item stored at its own identifier on every path to the read' if ok2 else
+                'no test that %s.find_item(%s.id) is %s: a step whose identifier disagrees with its position can cite '
+                'itself or a later step' % (prf, seq, seq), '%s:%d' % (THEORY, n.lineno))
     for n, c in reads:
         ok1 = cfg.path_avoiding(n, skip_edges=dep_edges) is None
         res.add('%s :: Theory._check_proof_item :: cited-read :: identifier-test' % THEORY, ok1,
@@ -186,13 +216,15 @@ def rule_p3(repo):
     assigns = [n for n in cfg.nodes if n.kind == 'stmt' and isinstance(n.ast, ast.Assign) and any(is_name(t, 'res_th') for t in n.ast.targets)]
     need(assigns, '_check_proof_item: no assignment to res_th')
 
+    flow = flow_of(func.node)
+
     def canprove(expr, pol):
         return pol and isinstance(expr, ast.Call) and call_attr(expr) == 'can_prove' and \
-            is_name(expr.func.value, 'res_th') and [path_of(a) for a in expr.args] == [seq + '.th']
+            is_name(expr.func.value, 'res_th') and len(expr.args) == 1 and denotes(flow, expr.args[0], seq + '.th')
 
     def isnone(expr, pol):
         cp = compare_parts(expr)
-        return bool(cp) and ((cp[0] is ast.Is and pol) or (cp[0] is ast.IsNot and not pol)) and path_of(cp[1]) == seq + '.th' and \
+        return bool(cp) and ((cp[0] is ast.Is and pol) or (cp[0] is ast.IsNot and not pol)) and denotes(flow, cp[1], seq + '.th') and \
             isinstance(cp[2], ast.Constant) and cp[2].value is None
     cp_edges = cfg.establishing_edges(canprove)
     none_edges = cfg.establishing_edges(isnone)
@@ -210,31 +242,55 @@ def rule_p3(repo):
     res.add('%s :: Theory._check_proof_item :: stores-to-stated-sequent' % THEORY, not bad_stores,
             'the stated sequent is only filled in from res_th when absent' if not bad_stores else
             'stated sequent overwritten: %s' % '; '.join(src(n.ast) for n in bad_stores), func.loc)
-    # Thm.can_prove
+    # Thm.can_prove: a truthy answer only where the propositions are equal and the hypotheses are among the stated ones,
+    # whether these are conjuncts of the returned expression or tests passed on the way to the return
     f = repo.func(THM, 'Thm.can_prove')
     tgt = f.params()[1]
-    rets = returns_of(f.node)
-    ok_prop = ok_hyps = False
-    if len(rets) == 1 and rets[0].value is not None:
-        e = rets[0].value
+    fl = flow_of(f.node)
+    fcfg = cfg_of(f.node)
+
+    def mentions(e, path):
+        return path in fl.resolve(e)
+
+    def prop_eq(c, pol=True):
+        cp = compare_parts(c)
+        if not cp:
+            return False
+        sides = (denotes(fl, cp[1], 'self.prop') and denotes(fl, cp[2], tgt + '.prop')) or (denotes(fl, cp[2], 'self.prop') and denotes(fl, cp[1], tgt + '.prop'))
+        return sides and ((cp[0] is ast.Eq and pol) or (cp[0] is ast.NotEq and not pol))
+
+    def hyps_sub(c, pol=True):
+        if not pol:
+            return False
+        cp = compare_parts(c)
+        if isinstance(c, ast.Call) and call_attr(c) == 'issubset' and mentions(c.func.value, 'self.hyps') and c.args and mentions(c.args[0], tgt + '.hyps'):
+            return True
+        if cp and cp[0] is ast.LtE and mentions(cp[1], 'self.hyps') and mentions(cp[2], tgt + '.hyps') and \
+                all(isinstance(s_, ast.Call) and call_name(s_) in ('set', 'frozenset') for s_ in (cp[1], cp[2])):
+            return True
+        if isinstance(c, ast.Call) and call_name(c) == 'all' and c.args and isinstance(c.args[0], (ast.GeneratorExp, ast.ListComp)):
+            g = c.args[0]
+            cp2 = compare_parts(g.elt)
+            if cp2 and cp2[0] is ast.In and mentions(cp2[2], tgt + '.hyps') and len(g.generators) == 1 and denotes(fl, g.generators[0].iter, 'self.hyps') \
+                    and not g.generators[0].ifs and is_name(cp2[1], getattr(g.generators[0].target, 'id', None)):
+                return True
+        return False
+    ok_prop = ok_hyps = True
+    rets = [r for r in fcfg.return_nodes() if r.ast.value is not None]
+    need(rets, 'Thm.can_prove: no result')
+    for r in rets:
+        e = r.ast.value
+        if isinstance(e, ast.Constant) and e.value is False:
+            continue
         conj = e.values if isinstance(e, ast.BoolOp) and isinstance(e.op, ast.And) else [e]
-        for c in conj:
-            cp = compare_parts(c)
-            if cp and cp[0] is ast.Eq and {path_of(cp[1]), path_of(cp[2])} == {'self.prop', tgt + '.prop'}:
-                ok_prop = True
-            if isinstance(c, ast.Call) and call_attr(c) == 'issubset' and 'self.hyps' in {path_of(x) for x in ast.walk(c.func.value)} \
-                    and c.args and (tgt + '.hyps') in {path_of(x) for x in ast.walk(c.args[0])}:
-                ok_hyps = True
-            if cp and cp[0] is ast.LtE and 'self.hyps' in {path_of(x) for x in ast.walk(cp[1])} and \
-                    (tgt + '.hyps') in {path_of(x) for x in ast.walk(cp[2])} and \
-                    all(isinstance(s, ast.Call) and call_name(s) in ('set', 'frozenset') for s in (cp[1], cp[2])):
-                ok_hyps = True
-            if isinstance(c, ast.Call) and call_name(c) == 'all' and c.args and isinstance(c.args[0], ast.GeneratorExp):
-                g = c.args[0]
-                cp2 = compare_parts(g.elt)
-                if cp2 and cp2[0] is ast.In and path_of(cp2[2]) == tgt + '.hyps' and path_of(g.generators[0].iter) == 'self.hyps' \
-                        and not g.generators[0].ifs:
-                    ok_hyps = True
+        for pred, which in ((prop_eq, 'prop'), (hyps_sub, 'hyps')):
+            inside = any(pred(c) for c in conj)
+            before = fcfg.path_avoiding(r, skip_edges=fcfg.establishing_edges(pred)) is None
+            if not (inside or before):
+                if which == 'prop':
+                    ok_prop = False
+                else:
+                    ok_hyps = False
     res.add('%s :: Thm.can_prove :: same-proposition' % THM, ok_prop,
             'self.prop == target.prop' if ok_prop else 'can_prove no longer requires equal propositions', f.loc)
     res.add('%s :: Thm.can_prove :: hyps-subset' % THM, ok_hyps,
@@ -404,7 +460,7 @@ def rule_p8(repo):
         if isinstance(e, ast.Call) and call_name(e) in ('any', 'all') and e.args and isinstance(e.args[0], ast.GeneratorExp):
             g = e.args[0]
             cp = compare_parts(g.elt)
-            if cp and path_of(g.generators[0].iter) == idp + '.id' and isinstance(cp[2], ast.Constant) and cp[2].value == 0:
+            if cp and denotes(flow, g.generators[0].iter, idp + '.id') and isinstance(cp[2], ast.Constant) and cp[2].value == 0:
                 if call_name(e) == 'any' and cp[0] is ast.Lt:
                     return not pol
                 if call_name(e) == 'all' and cp[0] is ast.GtE:
@@ -414,6 +470,16 @@ def rule_p8(repo):
             return (cp[0] is ast.Lt and not pol) or (cp[0] is ast.GtE and pol)
         return False
     edges = cfg.establishing_edges(nonneg)
+    # the same test written as a loop over the components: `for i in id.id: if i < 0: raise`
+    from ..idioms import forall_not_edges
+
+    def neg_elem(e, v):
+        cp = compare_parts(e)
+        if cp and cp[0] is ast.Lt and is_name(cp[1], v) and isinstance(cp[2], ast.Constant) and cp[2].value == 0:
+            return 'negative'
+        return None
+    loop_edges, _i = forall_not_edges(cfg, lambda it: any(p == idp + '.id' for p in flow.resolve(it)) and len(flow.resolve(it)) == 1, neg_elem)
+    edges = set(edges) | loop_edges
     for n, x in lookups:
         ok = bool(edges) and cfg.path_avoiding(n, skip_edges=edges) is None
         res.add('kernel/proof.py :: Proof.find_item :: lookup(%s)' % src(x, 40), ok,
@@ -458,8 +524,9 @@ def rule_p10(repo):
     and "yes" can only be answered after the prefixes were compared."""
     res = RuleResult('C02.P10', 'can_depend_on answers "no" wherever the identifiers differ before the cited line\'s last component, and "yes" only after comparing the prefixes', floor=2)
     f = repo.func('kernel/proof.py', 'ItemID.can_depend_on')
-    cfg = cfg_of(f.node)
-    flow = flow_of(f.node)
+    fnode = desugar_bool_returns(f.node)      # `return a and b == c and d < e` reads like the chain of early returns
+    cfg = cfg_of(fnode)
+    flow = flow_of(fnode)
     me, other = f.params()[0], f.params()[1]
 
     def about_ids(e):
